@@ -177,6 +177,21 @@ def jrat(v):
     return Fraction(v)
 
 
+_POOL_FUNC = None
+
+
+def _pool_init(func):
+    global _POOL_FUNC
+    _POOL_FUNC = func
+    sys.stdout = io.StringIO()
+    sys.stderr = io.StringIO()
+
+
+def _pool_call(lines):
+    cases = [json.loads(json.loads(l)) for l in lines]
+    return _POOL_FUNC(cases)
+
+
 class Ctx:
     def __init__(self, pid, tier, seed):
         self.pid, self.tier, self.seed = pid, tier, seed
@@ -200,9 +215,9 @@ class Ctx:
             self.known = [k for k in json.load(f)["findings"] if k["property"] == pid]
 
     # ---------------------------------------------------------------- TLC
-    def _tlc(self, module, cfg, workers, env, timeout, extra, label):
+    def _tlc(self, module, cfg, workers, env, timeout, extra, label, to_file=None):
         metadir = tempfile.mkdtemp(prefix="meta-", dir=self.tmp)
-        cmd = ["java", "-XX:+UseParallelGC", "-Xmx8g", "-cp", TLA_JAR, "tlc2.TLC",
+        cmd = ["java", "-XX:+UseParallelGC", "-Xmx8g", "-Xss64m", "-cp", TLA_JAR, "tlc2.TLC",
                "-workers", str(workers), "-metadir", metadir, "-noGenerateSpecTE",
                "-config", cfg] + list(extra) + [module]
         e = dict(os.environ)
@@ -211,13 +226,25 @@ class Ctx:
             e.update(env)
         t = time.time()
         try:
-            p = subprocess.run(cmd, cwd=SPEC, env=e, stdout=subprocess.PIPE, stderr=subprocess.STDOUT,
-                               timeout=timeout, text=True)
+            if to_file:
+                with open(to_file, "w") as fh:
+                    subprocess.run(cmd, cwd=SPEC, env=e, stdout=fh, stderr=subprocess.STDOUT, timeout=timeout)
+                # keep only TLC's own lines in memory; the printed JSON stays on disk
+                keep = []
+                with open(to_file) as fh:
+                    for line in fh:
+                        if not line.startswith('"'):
+                            keep.append(line)
+                stdout = "".join(keep)
+            else:
+                p = subprocess.run(cmd, cwd=SPEC, env=e, stdout=subprocess.PIPE, stderr=subprocess.STDOUT,
+                                   timeout=timeout, text=True)
+                stdout = p.stdout
         except subprocess.TimeoutExpired:
             raise Machinery("TLC timeout (%ss) on %s/%s" % (timeout, module, cfg))
         finally:
             shutil.rmtree(metadir, ignore_errors=True)
-        out = TLCOut(p.stdout, time.time() - t)
+        out = TLCOut(stdout, time.time() - t)
         self.tlc_runs.append({"label": label or cfg, "module": module, "cfg": cfg, "generated": out.generated,
                               "distinct": out.distinct, "depth": out.depth, "wall_s": round(out.wall, 2)})
         return out
@@ -246,6 +273,49 @@ class Ctx:
     def tlc_emit(self, module, cfg, workers=16, timeout=1500, extra=(), env=None, label=None):
         out = self.tlc_mc(module, cfg, workers, timeout, extra, env, label)
         return out.printed_json(), out
+
+    def tlc_emit_file(self, module, cfg, workers=16, timeout=1500, extra=(), env=None, label=None):
+        """Like tlc_emit for large outputs: the printed JSON lines stay in a file (returned)."""
+        path = os.path.join(self.tmp, "emit-%s-%d.out" % (module, len(self.tlc_runs)))
+        out = self._tlc(module, cfg, workers, env, timeout, extra, label, to_file=path)
+        if not out.ok or out.violated:
+            self._fail_tlc(out, "%s/%s: model checking did not succeed" % (module, cfg))
+        self.states += out.distinct
+        self.transitions += out.generated
+        return path, out
+
+    def write_cfg(self, name, text):
+        path = os.path.join(self.tmp, name)
+        with open(path, "w") as f:
+            f.write(text)
+        return path
+
+    def pmap_emitted(self, path, func, chunk=2000, procs=16):
+        """Replay every JSON line of an emit file through func(list_of_cases) in a process pool.
+        func returns (n_cases, violations[(sig, what, detail)], nontrivial_keys, samples)."""
+        import multiprocessing as mp
+        def chunks():
+            buf = []
+            with open(path) as fh:
+                for line in fh:
+                    if line.startswith('"'):
+                        buf.append(line)
+                        if len(buf) >= chunk:
+                            yield buf; buf = []
+            if buf:
+                yield buf
+        total = 0
+        with mp.get_context("fork").Pool(procs, initializer=_pool_init, initargs=(func,)) as pool:
+            for n, viol, nontriv, samples in pool.imap_unordered(_pool_call, chunks()):
+                total += n
+                for v in viol:
+                    self.violation(*v)
+                self.nontrivial.update(nontriv)
+                for s_ in samples:
+                    self.sample(s_)
+        self.bound += total
+        self.evaluations += total
+        return total
 
     def tlc_trace(self, module, cases, cfg=None, chunks=16, timeout=1500, label=None, env=None):
         """Judge recorded implementation events with the acceptance predicates of `module`.
